@@ -42,6 +42,7 @@ type c05Oracle struct {
 	panicPred map[string]bool
 	classes   map[string]bool
 	hot       bool
+	anc       []*c05JV // enclosing objects of the struct being walked, nearest first (for ",inherit")
 }
 
 func c05NewOracle() *c05Oracle {
@@ -98,7 +99,29 @@ func c05Exact(text string) (*big.Rat, bool) {
 	return r, ok
 }
 
+// scanDoc: a number token that is not JSON makes the whole document malformed
+// (every entry point may reject it); such a document is never "plain".
+func (o *c05Oracle) scanDoc(v *c05JV) {
+	switch v.T {
+	case "num":
+		if !c05ReJSONNum.MatchString(v.S) {
+			o.unspec("malformed-number-token")
+		}
+	case "arr":
+		for i := range v.L {
+			o.scanDoc(&v.L[i])
+		}
+	case "obj":
+		for i := range v.M {
+			o.scanDoc(&v.M[i].V)
+		}
+	}
+}
+
 func (o *c05Oracle) walkStruct(fs []c05Fld, obj *c05JV, val reflect.Value, path string) {
+	if path == "" {
+		o.scanDoc(obj)
+	}
 	for i := range fs {
 		f := &fs[i]
 		var fv reflect.Value
@@ -141,7 +164,25 @@ func (o *c05Oracle) walkStruct(fs []c05Fld, obj *c05JV, val reflect.Value, path 
 			o.walkStruct(f.T.F, obj, ev, p)
 			continue
 		}
+		if f.Env && f.EV != nil && *f.EV != "" {
+			// documented by the package's tests: a set environment variable overrides the document
+			o.class("env-set")
+			o.envValue(f, *f.EV, fv, p)
+			continue
+		}
+		if f.Env {
+			o.class("env-unset")
+		}
 		ms := obj.lookup(f.key(i))
+		if len(ms) == 0 && f.Inh {
+			// documented by the package's tests: the nearest enclosing object that has the key provides the value
+			for _, a := range o.anc {
+				if ms = a.lookup(f.key(i)); len(ms) > 0 {
+					o.class("inherited-from-enclosing-object")
+					break
+				}
+			}
+		}
 		switch len(ms) {
 		case 0:
 			o.absent(f, fv, p)
@@ -154,7 +195,10 @@ func (o *c05Oracle) walkStruct(fs []c05Fld, obj *c05JV, val reflect.Value, path 
 				o.nullField(f, fv, p)
 				continue
 			}
+			saved := o.anc
+			o.anc = append([]*c05JV{obj}, saved...)
 			o.value(&f.T, f, ms[0], fv, 0, p)
+			o.anc = saved
 		default:
 			o.unspec("duplicate-key")
 			// which duplicate wins is not specified; still collect the panic predicates of each
@@ -169,6 +213,60 @@ func (o *c05Oracle) walkStruct(fs []c05Fld, obj *c05JV, val reflect.Value, path 
 				}
 			}
 		}
+	}
+}
+
+// envValue: the field's value comes from the environment variable (text).
+func (o *c05Oracle) envValue(f *c05Fld, text string, fv reflect.Value, p string) {
+	t := &f.T
+	p += "(env)"
+	if !c05IsScalar(t.K) {
+		o.unspec("env-on-composite")
+		return
+	}
+	if t.P {
+		// the env route does not allocate pointers: UNSPECIFIED (P0 still applies)
+		o.unspec("env-on-pointer")
+		if c05IsNumeric(t.K) || t.K == "dur" {
+			o.panicPred["env-pointer-panic"] = true
+		}
+		return
+	}
+	switch t.K {
+	case "string":
+		v := c05Str(text)
+		o.scalar(t, &c05Fld{T: f.T, Opts: f.Opts, Rng: f.Rng}, &v, fv, 0, p)
+	case "bool":
+		b, err := strconv.ParseBool(text)
+		switch {
+		case err != nil:
+			o.class("env-bad-bool")
+			o.fail("", "%s: %q is not a bool", p, text)
+		case text == "true" || text == "false":
+			o.expectBool(fv, b, p)
+		default:
+			o.unspec("env-bool-spelling")
+		}
+	case "dur":
+		d, err := time.ParseDuration(text)
+		if err != nil {
+			o.class("bad-duration")
+			o.fail("", "%s: %q is not a duration", p, text)
+			return
+		}
+		if fv.IsValid() && time.Duration(fv.Int()) != d {
+			o.mismatch("", "%s: environment %q (%d ns), field %d ns", p, text, int64(d), fv.Int())
+		}
+	default:
+		if t.K == "int64" {
+			// the env route treats every int64 field as a duration: a plain integer text is
+			// rejected ("missing unit"); allowed, so acceptance is not demanded
+			o.unspec("env-int64-as-duration")
+			if _, err := time.ParseDuration(text); err == nil {
+				o.panicPred["env-int64-duration-panic"] = true
+			}
+		}
+		o.scalarNumber(t.K, &c05Fld{T: f.T, Opts: f.Opts, Rng: f.Rng}, text, c05RouteDirect, fv, p)
 	}
 }
 
@@ -312,7 +410,10 @@ func (o *c05Oracle) absent(f *c05Fld, fv reflect.Value, p string) {
 			}
 		}
 		empty := c05Obj()
+		saved := o.anc
+		o.anc = nil
 		o.walkStruct(t.F, &empty, sv, p)
+		o.anc = saved
 	}
 }
 
@@ -338,12 +439,15 @@ func (o *c05Oracle) value(t *c05Typ, f *c05Fld, v *c05JV, fv reflect.Value, pos 
 			}
 			return
 		}
+		saved := o.anc
 		if pos == 0 {
 			o.class("nested-struct")
 		} else {
 			o.class("struct-in-collection")
+			o.anc = nil // elements of slices and maps are unmarshalled on their own: nothing to inherit from
 		}
 		o.walkStruct(t.F, v, fv, p)
+		o.anc = saved
 	case "slice":
 		if v.T != "arr" {
 			o.unspec("illtyped-slice")
@@ -827,6 +931,8 @@ var c05PanicSig = map[string][]string{
 	"fillslicevalue-object-elem-panic":       {"reflect: Key of non-map type"},
 	"fillslicefromstring-ptr-elem-panic":     {"reflect.Set: value of type []"},
 	"fillslicefromstring-nested-array-panic": {"reflect.Set: value of type []interface {} is not assignable"},
+	"env-pointer-panic":                      {"on zero Value"},
+	"env-int64-duration-panic":               {"value of type time.Duration is not assignable to type int64"},
 	"fillslicefromstring-null-elem-panic":    {"invalid memory address or nil pointer dereference"},
 }
 
